@@ -5,6 +5,7 @@ import (
 	"errors"
 	"fmt"
 	"os"
+	"path/filepath"
 	"strings"
 	"sync"
 	"time"
@@ -42,9 +43,13 @@ func C29(c *core.Ctx) {
 		"re-open; (2) concurrent histories of 6 blind writers while DropPrefix(p1[,p2]) runs 2-4 times: a write acknowledged before the call must be gone, one issued after the " +
 		"return must be there, an overlapping one may go either way but all-or-nothing per transaction for the dropped keys; keys without the prefix are unchanged; commits refused " +
 		"with ErrBlockedWrites leave no trace; the database accepts writes afterwards; (3) concurrent DropAll: nothing acknowledged before the call survives; distinct = (family, " +
-		"options, prefix shape, overlap observed) classes; crash points inside drops are covered by the crash engine (C08 family)")
+		"options, prefix shape, overlap observed) classes; (4) crash inside drops (E2 engine): a workload child whose maintenance goroutine calls DropPrefix every 4-24 ms while " +
+		"transaction and batch clients commit is SIGKILLed at drop-phase schedule points, at persistence events of the drop's flushes/compactions and at random events; after " +
+		"re-open (twice) the commit-prefix oracle of C08 holds for the markers, every key carrying a dropped prefix is absent when its newest writer was acknowledged before a " +
+		"completed drop, holds its pre-drop value or is absent when a drop covering it overlapped the writer or never returned, and every other key equals the model")
 	work := c.WorkDir()
 	defer os.RemoveAll(work)
+	c29Crash(c, work)
 	// (2)+(3) concurrent
 	idx := 0
 	for round := 0; round < c.Pick(3, 20); round++ {
@@ -325,5 +330,82 @@ func c29Sequential(c *core.Ctx, work string) {
 	n := c.Pick(20, 200)
 	for i := 0; i < n; i++ {
 		c29Seq1(c, work, i)
+	}
+}
+
+// c29Crash: crashes inside DropPrefix (E2 engine, family "drops").
+func c29Crash(c *core.Ctx, work string) {
+	cfgs := []crashConfig{{"base+drops", 0, "drops", false, 4, 70}, {"snappy+drops", 1, "drops", false, 4, 70}}
+	if !c.Thorough() {
+		cfgs = cfgs[:1]
+	}
+	type job struct {
+		cfg       crashConfig
+		name      string
+		killAt    int64
+		killClass string
+	}
+	var jobs []job
+	for ci, cfg := range cfgs {
+		s, specPath := newCrashSpec(c, work, cfg, 0, fmt.Sprintf("dcount-%d", ci))
+		writeSpec(s, specPath)
+		out, timedOut, _ := runChild(120*time.Second, nil, c.ID, "--child-crash", specPath)
+		si := parseSideLog(s.SideLog)
+		if timedOut || !si.ended {
+			c.Inconclusive("drop crash counting run did not end: " + tailStr(out, 300))
+			os.RemoveAll(filepath.Dir(specPath))
+			continue
+		}
+		verifyRecovered(c, "C29|crash|end-of-workload", s, specPath, si, si.acked, map[string]any{"case": "counting run", "config": cfg.name})
+		os.RemoveAll(filepath.Dir(specPath))
+		c.Count("drop.crash_drops_in_counting_run", int64(len(si.drops)))
+		byClass := map[string]int{}
+		for _, e := range si.events {
+			byClass[e]++
+		}
+		for _, cl := range []string{"pt.dropprefix.afterPrepare", "pt.dropprefix.beforeLevels", "pt.compact.afterBuild", "pt.compact.afterManifest", "pt.compact.afterReplace", "pt.compact.afterDelete", "fs.unlink.sst", "fs.append.MANIFEST", "fs.unlink.mem", "pt.flush.beforeAdd"} {
+			n := byClass[cl]
+			for k := 0; k < c.Pick(2, 12) && n > 0; k++ {
+				jobs = append(jobs, job{cfg, fmt.Sprintf("d%d-%s-%d", ci, cl, k), int64(1 + (k*n)/c.Pick(2, 12)), cl})
+			}
+		}
+		rk := c.Rand("c29-kp")
+		for k := 0; k < c.Pick(10, 120) && len(si.events) > 0; k++ {
+			n := int64(1 + rk.Intn(len(si.events)))
+			jobs = append(jobs, job{cfg, fmt.Sprintf("d%d-n%d-%d", ci, n, k), n, ""})
+		}
+	}
+	var wg sync.WaitGroup
+	ch := make(chan job)
+	for w := 0; w < 12; w++ {
+		wg.Add(1)
+		go func() {
+			defer wg.Done()
+			for j := range ch {
+				si, ok := runCrashCase(c, "C29|crash", work, j.cfg, 0, j.name, j.killAt, j.killClass, nil)
+				c.Eval(1)
+				if ok && si != nil {
+					inDrop := false
+					for _, d := range si.drops {
+						if d.end == 0 {
+							inDrop = true
+						}
+					}
+					c.Count("drop.crash_cases", 1)
+					if inDrop {
+						c.Count("drop.crash_cases_killed_inside_a_drop", 1)
+					}
+					c.Distinct(fmt.Sprintf("crash|%s|%s|inside-drop=%v", j.cfg.name, si.killed, inDrop))
+				}
+			}
+		}()
+	}
+	for _, j := range jobs {
+		ch <- j
+	}
+	close(ch)
+	wg.Wait()
+	if c.Counter("drop.crash_cases_killed_inside_a_drop") == 0 {
+		c.Inconclusive("no child was killed inside a DropPrefix call")
 	}
 }
